@@ -202,6 +202,12 @@ func genJoin(engine, prop string, r *simrt.SplitMix) *JoinSc {
 				if b.Lens[i] < -1 {
 					b.Lens[i] = 0
 				}
+
+				// C08 only (elements are no longer unique): send an oversize slice object twice
+				// (copy mode only: in no-copy mode the slice becomes the consumer's)
+				if prop == "C08" && !sc.NoCopy && r.Intn(6) == 0 {
+					b.Lens[i] = -2
+				}
 			}
 		}
 
@@ -379,8 +385,20 @@ func buildJoin(sc *JoinSc) (simrt.Config, func()) {
 
 			h.out = dsc.Output()
 			h.release = func(<-chan struct{}) bool { dsc.Release(); return true }
+			var lastBig []int // the last input slice of at least JoinSize elements
+
 			sendOne = func(id *int, n int) {
 				var sl []int // n == -1: a nil slice, which is a legal empty input slice too
+
+				if n == -2 {
+					// the producer hands over the very same (read-only) slice object again
+					if lastBig != nil && !sc.NoCopy {
+						simrt.Send("env:producer", in, lastBig)
+						return
+					}
+
+					n = sc.JoinSize
+				}
 
 				if n >= 0 {
 					sl = make([]int, n)
@@ -389,6 +407,10 @@ func buildJoin(sc *JoinSc) (simrt.Config, func()) {
 				for i := range sl {
 					sl[i] = *id
 					*id++
+				}
+
+				if n >= sc.JoinSize {
+					lastBig = sl
 				}
 
 				simrt.Send("env:producer", in, sl)
